@@ -85,3 +85,613 @@ Print Assumptions C11_classify_fat_complete.
 Print Assumptions C11_classify_fat_sound.
 Print Assumptions C11_classify_root_complete.
 Print Assumptions C11_classify_outside_iff.
+
+(* ================================================================================================================
+   WHOLE IMAGES (FAT12/16, fixed root: [fixed_root_geom]): "every device write of an operation lands inside the volume's own
+   structures", after every API call and over whole runs (Proofs/VolFrameProofs.v).
+
+   Vocabulary.
+     touchable g im0 own x    = cluster x is FREE for the independent decoder in im0 (fat_val g im0 x = FFree) or x is in [own]
+     Touch g im0 own status im = (a) every cluster that is not touchable keeps its FAT value (decoder's view);
+                                (b) a byte that is not the status byte, not in the mirrored FAT copies ([in_store_area]), not in
+                                    the root region and not in a touchable cluster is the byte of im0;
+                                (c) status = false -> the status byte is the byte of im0.
+     FatKept g im0 im          = (all FAT copies equal in im0 -> all equal in im) /\ the bytes of FAT entries 0 and 1 of every
+                                copy are those of im0                                           (C10; Props/C10.v)
+     Confined g im0 own status im = Touch g im0 own status im /\ FatKept g im0 im.
+   [im0] is the image BEFORE the call or the run, [own] the chain(s), as of im0, of the file(s) / directory operated on, [status]
+   says whether the operation is one of the mounted ones (Model/VolStatus.v) that may write the status byte.
+   C11_vol_confined_means spells [Confined] out through the EXTRACTED classifier Spec/Regions.classify applied to im0: a byte
+   that differs is classified status byte / FAT copy k / root region / data cluster c with c free in im0 or in [own]; never boot
+   sector, FS-info, tail or outside; plus the byte-level consequences.  Every theorem below concludes [Confined]. *)
+
+From Coq Require Import FMapPositive.
+From FatVerif Require Import Spec.Abs Spec.Regions Model.Str Model.Slot Model.Time Model.FileM Model.Name Model.ShortName Model.DirSlots Model.Flags
+  Model.VolDir Model.VolChainDir Model.VolFile Model.FlushM Model.VolSession Model.VolSession2 Model.VolRemove Model.VolStatus
+  Spec.ByteFile Proofs.TableProofs Proofs.FileProofs Proofs.DirSlotsProofs Proofs.VolDirProofs Proofs.VolDirFormat
+  Proofs.VolFileProofs Proofs.VolSessionProofs Proofs.VolSession2Proofs Proofs.VolRemoveProofs Proofs.VolStatusProofs
+  Proofs.VolChainDirProofs Proofs.VolSessionExamples Proofs.VolSession2Examples Proofs.VolRemoveExamples
+  Proofs.VolStatusExamples Proofs.VolFrameProofs Proofs.VolFrameExamples.
+From FatVerif Require Spec.Wf Model.Lfn Proofs.TimeProofs.
+Import ListNotations.
+
+Theorem C11_vol_confined_means :
+    forall (g : geom) (im0 : image) (own : list N) (status : bool) (im : image),
+    fixed_root_geom g ->
+    Confined g im0 own status im ->
+    (forall (m : PositiveMap.t owner) (o : N),
+     img_get im o <> img_get im0 o ->
+     match classify g im0 m o with
+     | RStatus => status = true
+     | RFat k => k < g_fats g
+     | RRoot => True
+     | RCluster c _ => 2 <= c < g_clusters g + 2 /\ (fat_val g im0 c = FFree \/ In c own)
+     | _ => False
+     end) /\
+    (forall o : N, g_volume_bytes g <= o -> img_get im o = img_get im0 o) /\
+    (forall o : N, o < g_reserved g * g_bps g -> o <> g_status_off g -> img_get im o = img_get im0 o) /\
+    (status = false -> img_get im (g_status_off g) = img_get im0 (g_status_off g)) /\
+    (forall c o : N,
+     2 <= c < g_clusters g + 2 ->
+     in_cluster g c o -> fat_val g im0 c <> FFree -> ~ In c own -> img_get im o = img_get im0 o) /\
+    (forall (o : N) (m : PositiveMap.t owner), classify g im0 m o = RTail -> img_get im o = img_get im0 o) /\
+    (forall x : N,
+     2 <= x < g_clusters g + 2 -> fat_val g im0 x <> FFree -> ~ In x own -> fat_val g im x = fat_val g im0 x) /\
+    (fat_copies_equal g im0 = true -> fat_copies_equal g im = true) /\ reserved_kept g im0 im.
+Proof. exact confined_means. Qed.
+
+(* ... and with the judge's OWN ownership map of the image before (Regions.owners (abs im0)): a changed data byte lies in a cluster
+   that map calls FREE, or in a cluster of [own] *)
+Theorem C11_vol_confined_classified_by_owner_map :
+    forall (g : geom) (im0 : image) (own : list N) (status : bool) (im : image),
+    fixed_root_geom g ->
+    parse_geom im0 = g ->
+    Confined g im0 own status im ->
+    forall o : N,
+    img_get im o <> img_get im0 o ->
+    match classify g im0 (owners (abs im0)) o with
+    | RStatus => status = true
+    | RFat k => k < g_fats g
+    | RRoot => True
+    | RCluster c ow => 2 <= c < g_clusters g + 2 /\ (ow = OFree /\ fat_val g im0 c = FFree \/ In c own)
+    | _ => False
+    end.
+Proof. exact confined_classified_owner. Qed.
+
+(* (the ownership map never names a cluster that is free for the decoder: any image, any width) *)
+Theorem C11_vol_owner_map_free_cluster :
+    forall (im : image) (c : N),
+    fat_val (parse_geom im) im c = FFree -> cluster_owner (parse_geom im) im (owners (abs im)) c = OFree.
+Proof. exact free_cluster_owner. Qed.
+
+(* COMPOSITION: a step from [im] that touches [own'] - all of it touchable from im0 - after a run from im0.  This is what lifts the
+   per-call theorems to runs with the classification still taken against the image before the RUN *)
+Theorem C11_vol_confined_transitive :
+    forall (g : geom) (im0 : image) (own : list N) (status : bool) (im : image) (own' : list N) 
+      (status' : bool) (im' : image),
+    Confined g im0 own status im ->
+    Confined g im own' status' im' ->
+    (forall x : N, In x own' -> touchable g im0 own x) ->
+    (status' = true -> status = true) -> Confined g im0 own status im'.
+Proof. exact confined_step. Qed.
+
+(* ---------------------------------------------------------------- every operation of the image-level models *)
+(* root_dir().create_file / remove (file without clusters) / rename of a file - EVERY outcome, no premise but the geometry *)
+Theorem C11_vol_create_confined :
+    forall (upper : N -> list N) (oem : N -> N) (im : image) (name : str) (now : datetime)
+      (r : res (option (N * N))) (im' : image),
+    fixed_root_geom (parse_geom im) ->
+    vol_create_empty_file_root upper oem im name now = (r, im') -> Confined (parse_geom im) im [] false im'.
+Proof. exact vol_create_confined2. Qed.
+
+Theorem C11_vol_remove_empty_confined :
+    forall (upper : N -> list N) (oem : N -> N) (im : image) (name : str) (r : res unit) (im' : image),
+    fixed_root_geom (parse_geom im) ->
+    vol_remove_empty_file_root upper oem im name = Some (r, im') -> Confined (parse_geom im) im [] false im'.
+Proof. exact vol_remove_empty_confined. Qed.
+
+Theorem C11_vol_rename_confined :
+    forall (upper : N -> list N) (oem : N -> N) (im : image) (src dst : str) (r : res unit) (im' : image),
+    fixed_root_geom (parse_geom im) ->
+    vol_rename_in_root upper oem im src dst = Some (r, im') -> Confined (parse_geom im) im [] false im'.
+Proof. exact vol_rename_confined2. Qed.
+
+(* the same, mounted (Model/VolStatus.v): the status byte may be written *)
+Theorem C11_vol_create_mounted_confined :
+    forall (upper : N -> list N) (oem : N -> N) (im : image) (s : fstat) (name : str) 
+      (now : datetime) (r : res (option (N * N))) (im' : image) (s' : fstat),
+    fixed_root_geom (parse_geom im) ->
+    StatInv (parse_geom im) im s ->
+    vols_create_empty_file_root upper oem im s name now = (r, im', s') ->
+    Confined (parse_geom im) im [] true im' /\ StatInv (parse_geom im) im' s'.
+Proof. exact vols_create_confined. Qed.
+
+Theorem C11_vol_remove_empty_mounted_confined :
+    forall (upper : N -> list N) (oem : N -> N) (im : image) (s : fstat) (name : str) 
+      (r : res unit) (im' : image) (s' : fstat),
+    fixed_root_geom (parse_geom im) ->
+    StatInv (parse_geom im) im s ->
+    vols_remove_empty_file_root upper oem im s name = Some (r, im', s') ->
+    Confined (parse_geom im) im [] true im' /\ StatInv (parse_geom im) im' s'.
+Proof. exact vols_remove_empty_confined. Qed.
+
+Theorem C11_vol_rename_mounted_confined :
+    forall (upper : N -> list N) (oem : N -> N) (im : image) (s : fstat) (src dst : str) 
+      (r : res unit) (im' : image) (s' : fstat),
+    fixed_root_geom (parse_geom im) ->
+    StatInv (parse_geom im) im s ->
+    vols_rename_in_root upper oem im s src dst = Some (r, im', s') ->
+    Confined (parse_geom im) im [] true im' /\ StatInv (parse_geom im) im' s'.
+Proof. exact vols_rename_confined. Qed.
+
+(* File::{read,write,seek,truncate} on a handle with chain [l]: the FAT copies and clusters that were free or in [l] *)
+Theorem C11_vol_file_step_confined :
+    forall g : geom,
+    fixed_root_geom g ->
+    forall (im : image) (fi : fsinfo) (h : fhandle) (sz : N) (l : list N) (op : fop),
+    op_ok op ->
+    VolInv g im fi h sz l ->
+    exists (im' : image) (fi' : fsinfo) (h' : fhandle) (r : fresult) (sz' : N) (l' : list N),
+      vol_step g (im, fi, h) op = (im', fi', h', r) /\
+      VolInv g im' fi' h' sz' l' /\
+      OpFrame g im im' l l' /\ Confined g im l false im' /\ (forall x : N, In x l' -> touchable g im l x).
+Proof. exact vol_step_confined. Qed.
+
+Theorem C11_vol_file_step_mounted_confined :
+    forall g : geom,
+    fixed_root_geom g ->
+    forall (im : image) (fi : fsinfo) (h : fhandle) (sz : N) (l : list N) (s : fstat) (op : fop),
+    op_ok op ->
+    VolInv g im fi h sz l ->
+    StatInv g im s ->
+    exists (im' : image) (fi' : fsinfo) (h' : fhandle) (s' : fstat) (r : fresult) (sz' : N) 
+    (l' : list N),
+      vols_step g (im, fi, h) s op = (im', fi', h', s', r) /\
+      VolInv g im' fi' h' sz' l' /\
+      StatInv g im' s' /\
+      Confined g im l true im' /\
+      (forall x : N, In x l' -> touchable g im l x) /\ (forall x : N, In x l' -> 2 <= x < g_clusters g + 2).
+Proof. exact vols_step_confined. Qed.
+
+(* root_dir().remove of a file that owns the chain [l] (premises of C05_vol_remove_reclaims_all): FAT copies and root region *)
+Theorem C11_vol_remove_file_confined :
+    forall (upper : N -> list N) (oem : N -> N) (fold : list N -> list N) (im : image) 
+      (fi : fsinfo) (name : str) (ev : Lfn.entry_view),
+    let g := parse_geom im in
+    fixed_root_geom g ->
+    FatProofs.bytes_ok im ->
+    fi_inv fstore (val_ft (ft_of g)) (store_of g im) fi (g_clusters g) ->
+    Wf.wf_issues fold im = [] ->
+    Forall attrs_sane (root_region_slots g im) ->
+    root_lookup upper oem im name = Ok ev ->
+    Lfn.ev_is_dir ev = false ->
+    list_eqb (Lfn.ev_raw_name ev) DOT || list_eqb (Lfn.ev_raw_name ev) DOTDOT = false ->
+    exists (im' : image) (fi' : fsinfo) (l : list N),
+      vol_remove_file_root upper oem im fi name = Some (Ok tt, im', fi') /\
+      (Lfn.ev_cluster_lo ev = 0 -> l = []) /\
+      (Lfn.ev_cluster_lo ev <> 0 -> chain_from g im (Lfn.ev_cluster_lo ev) (Abs.chain_fuel g) = Some l) /\
+      Confined g im l false im'.
+Proof. exact vol_remove_file_confined. Qed.
+
+Theorem C11_vol_remove_file_failed_confined :
+    forall (upper : N -> list N) (oem : N -> N) (im : image) (fi : fsinfo) (name : str) 
+      (r : res unit) (im' : image) (fi' : fsinfo) (own : list N),
+    vol_remove_file_root upper oem im fi name = Some (r, im', fi') ->
+    r <> Ok tt -> Confined (parse_geom im) im own false im'.
+Proof. exact vol_remove_file_failed_confined. Qed.
+
+Theorem C11_vol_remove_file_mounted_confined :
+    forall (upper : N -> list N) (oem : N -> N) (fold : list N -> list N) (im : image) 
+      (fi : fsinfo) (s : fstat) (name : str) (ev : Lfn.entry_view),
+    let g := parse_geom im in
+    fixed_root_geom g ->
+    FatProofs.bytes_ok im ->
+    fi_inv fstore (val_ft (ft_of g)) (store_of g im) fi (g_clusters g) ->
+    Wf.wf_issues fold im = [] ->
+    Forall attrs_sane (root_region_slots g im) ->
+    root_lookup upper oem im name = Ok ev ->
+    Lfn.ev_is_dir ev = false ->
+    list_eqb (Lfn.ev_raw_name ev) DOT || list_eqb (Lfn.ev_raw_name ev) DOTDOT = false ->
+    StatInv g im s ->
+    exists (im' : image) (fi' : fsinfo) (s' : fstat) (l : list N),
+      vols_remove_file_root upper oem im fi s name = Some (Ok tt, im', fi', s') /\
+      (Lfn.ev_cluster_lo ev = 0 -> l = []) /\
+      (Lfn.ev_cluster_lo ev <> 0 -> chain_from g im (Lfn.ev_cluster_lo ev) (Abs.chain_fuel g) = Some l) /\
+      Confined g im l true im' /\ StatInv g im' s'.
+Proof. exact vols_remove_file_confined. Qed.
+
+(* create / remove / rename inside a chain-backed directory with chain [l] (Model/VolChainDir.v): clusters of that directory *)
+Theorem C11_volchain_create_confined :
+    forall (upper : N -> list N) (oem : N -> N) (im : image) (l : list N) (name : str) 
+      (now : datetime) (r : res (option (N * N))) (im' : image),
+    chain_geom (parse_geom im) ->
+    chain_ok (parse_geom im) l ->
+    vol_create_empty_file_chain upper oem im l name now = Some (r, im') -> Confined (parse_geom im) im l false im'.
+Proof. exact vol_chain_create_confined2. Qed.
+
+Theorem C11_volchain_remove_confined :
+    forall (upper : N -> list N) (oem : N -> N) (im : image) (l : list N) (name : str) 
+      (r : res unit) (im' : image),
+    chain_geom (parse_geom im) ->
+    chain_ok (parse_geom im) l ->
+    vol_remove_empty_file_chain upper oem im l name = Some (r, im') -> Confined (parse_geom im) im l false im'.
+Proof. exact vol_chain_remove_confined2. Qed.
+
+Theorem C11_volchain_rename_confined :
+    forall (upper : N -> list N) (oem : N -> N) (im : image) (l : list N) (src dst : str) 
+      (r : res unit) (im' : image),
+    chain_geom (parse_geom im) ->
+    chain_ok (parse_geom im) l ->
+    vol_rename_in_chain upper oem im l src dst = Some (r, im') -> Confined (parse_geom im) im l false im'.
+Proof. exact vol_chain_rename_confined2. Qed.
+
+(* File::flush / drop (the entry write-back), set_dirty_flag, unmount, create_file with its handle *)
+Theorem C11_vol_flush_confined :
+    forall g : geom,
+    fixed_root_geom g ->
+    forall st : sstate,
+    (N.to_nat (en_slot (s_en st)) < root_slot_count g)%nat ->
+    length (se_name (en_data (s_en st))) = 11%nat -> Confined g (s_im st) [] false (s_im (vol_flush_entry g st)).
+Proof. exact vol_flush_confined. Qed.
+
+Theorem C11_vol_flush_mounted_confined :
+    forall g : geom,
+    fixed_root_geom g ->
+    forall (st : sstate) (s : fstat),
+    (N.to_nat (en_slot (s_en st)) < root_slot_count g)%nat ->
+    length (se_name (en_data (s_en st))) = 11%nat ->
+    Confined g (s_im st) [] false (s_im (fst (sesss_flush g st s))) /\ snd (sesss_flush g st s) = s.
+Proof. exact sesss_flush_confined. Qed.
+
+Theorem C11_vol_set_dirty_flag_confined :
+    forall g : geom,
+    fixed_root_geom g ->
+    forall (im : image) (s : fstat) (d : bool),
+    StatInv g im s ->
+    Confined g im [] true (fst (vol_set_dirty_flag g im s d)) /\
+    StatInv g (fst (vol_set_dirty_flag g im s d)) (snd (vol_set_dirty_flag g im s d)).
+Proof. exact set_dirty_flag_confined. Qed.
+
+Theorem C11_vol_unmount_confined :
+    forall g : geom,
+    fixed_root_geom g ->
+    forall (im : image) (s : fstat), StatInv g im s -> Confined g im [] true (fst (vol_unmount g im s)).
+Proof. exact unmount_confined. Qed.
+
+Theorem C11_vol_create_handle_confined :
+    forall g : geom,
+    fixed_root_geom g ->
+    forall (upper : N -> list N) (oem : N -> N) (im : image) (fi : fsinfo) (name : str) 
+      (now : datetime) (st : sstate),
+    parse_geom im = g -> sess_create upper oem im fi name now = Some st -> Confined g im [] false (s_im st).
+Proof. exact sess_create_confined. Qed.
+
+Theorem C11_vol_create_handle_mounted_confined :
+    forall g : geom,
+    fixed_root_geom g ->
+    forall (upper : N -> list N) (oem : N -> N) (im : image) (fi : fsinfo) (s : fstat) 
+      (name : str) (now : datetime) (st : sstate) (s' : fstat),
+    parse_geom im = g ->
+    StatInv g im s ->
+    sesss_create upper oem im fi s name now = Some (st, s') ->
+    Confined g im [] true (s_im st) /\ StatInv g (s_im st) s'.
+Proof. exact sesss_create_confined. Qed.
+
+(* ---------------------------------------------------------------- WHOLE RUNS, classified against the image before the run *)
+(* any history of calls on one handle *)
+Theorem C11_vol_file_run_confined :
+    forall g : geom,
+    fixed_root_geom g ->
+    forall (ops : list fop) (im : image) (fi : fsinfo) (h : fhandle) (sz : N) (l : list N),
+    Forall op_ok ops ->
+    VolInv g im fi h sz l ->
+    exists (im' : image) (fi' : fsinfo) (h' : fhandle) (rs : list fresult) (sz' : N) (l' : list N),
+      vol_run g (im, fi, h) ops = (im', fi', h', rs) /\
+      VolInv g im' fi' h' sz' l' /\ Confined g im l false im' /\ (forall x : N, In x l' -> touchable g im l x).
+Proof. exact vol_run_confined. Qed.
+
+Theorem C11_vol_file_run_mounted_confined :
+    forall g : geom,
+    fixed_root_geom g ->
+    forall (ops : list fop) (im : image) (fi : fsinfo) (h : fhandle) (sz : N) (l : list N) (s : fstat),
+    Forall op_ok ops ->
+    VolInv g im fi h sz l ->
+    StatInv g im s ->
+    exists (im' : image) (fi' : fsinfo) (h' : fhandle) (s' : fstat) (rs : list fresult) 
+    (sz' : N) (l' : list N),
+      vols_run g (im, fi, h) s ops = (im', fi', h', s', rs) /\
+      VolInv g im' fi' h' sz' l' /\
+      StatInv g im' s' /\ Confined g im l true im' /\ (forall x : N, In x l' -> touchable g im l x).
+Proof. exact vols_run_confined. Qed.
+
+(* the same with the time stamps of the handle's editor (Model/VolSession.v) *)
+Theorem C11_vol_session_run_confined :
+    forall g : geom,
+    fixed_root_geom g ->
+    forall (acc : bool) (ops : list (fop * datetime)) (st st' : sstate) (rs : list fresult) (sz : N) (l : list N),
+    Forall op_ok (map fst ops) ->
+    clocks_ok ops ->
+    VolInv g (s_im st) (s_fi st) (s_h st) sz l ->
+    sess_run g acc st ops = (st', rs) ->
+    exists (sz' : N) (l' : list N),
+      VolInv g (s_im st') (s_fi st') (s_h st') sz' l' /\
+      Confined g (s_im st) l false (s_im st') /\ (forall x : N, In x l' -> touchable g (s_im st) l x).
+Proof. exact sess_run_confined. Qed.
+
+Theorem C11_vol_session_run_mounted_confined :
+    forall g : geom,
+    fixed_root_geom g ->
+    forall (acc : bool) (ops : list (fop * datetime)) (st : sstate) (s : fstat) (st' : sstate) 
+      (s' : fstat) (rs : list fresult) (sz : N) (l : list N),
+    Forall op_ok (map fst ops) ->
+    clocks_ok ops ->
+    VolInv g (s_im st) (s_fi st) (s_h st) sz l ->
+    StatInv g (s_im st) s ->
+    sesss_run g acc st s ops = (st', s', rs) ->
+    exists (sz' : N) (l' : list N),
+      VolInv g (s_im st') (s_fi st') (s_h st') sz' l' /\
+      StatInv g (s_im st') s' /\
+      Confined g (s_im st) l true (s_im st') /\ (forall x : N, In x l' -> touchable g (s_im st) l x).
+Proof. exact sesss_run_confined. Qed.
+
+(* create_file ; any calls ; flush - the one-file session of Model/VolSession.v: clusters that were free, FAT copies, root region *)
+Theorem C11_vol_session_confined :
+    forall g : geom,
+    fixed_root_geom g ->
+    forall (upper : N -> list N) (oem : N -> N) (acc : bool) (im : image) (fi : fsinfo) 
+      (name : str) (now : datetime) (ops : list (fop * datetime)) (st : sstate) (rs : list fresult),
+    parse_geom im = g ->
+    FatProofs.bytes_ok im ->
+    fi_inv fstore (val_ft (ft_of g)) (store_of g im) fi (g_clusters g) ->
+    v_root_issues (abs im) = [] ->
+    TimeProofs.datetime_valid now = true ->
+    Forall op_ok (map fst ops) ->
+    clocks_ok ops ->
+    vol_session upper oem acc im fi name now ops = Some (st, rs) -> Confined g im [] false (s_im st).
+Proof. exact vol_session_confined. Qed.
+
+(* any interleaving of calls on any number of handles (file layer alone) *)
+Theorem C11_vol_multi_run_confined :
+    forall g : geom,
+    fixed_root_geom g ->
+    forall (ops : list (nat * fop)) (im : image) (fi : fsinfo) (hs : list fhandle) (gs : list (N * list N)),
+    Forall (fun io : nat * fop => op_ok (snd io)) ops ->
+    MVolInv g im fi hs gs ->
+    exists (im' : image) (fi' : fsinfo) (hs' : list fhandle) (rs : list fresult) (gs' : list (N * list N)),
+      mvol_run g (im, fi, hs) ops = (im', fi', hs', rs) /\
+      MVolInv g im' fi' hs' gs' /\ Confined g im (concat (map snd gs)) false im'.
+Proof. exact mvol_run_confined. Qed.
+
+(* several files per session (Model/VolSession2.v): one call / flush / drop, inside a run that started from im0 *)
+Theorem C11_session2_step_confined :
+    forall g : geom,
+    fixed_root_geom g ->
+    forall (acc : bool) (im0 : image) (own : list N) (st : s2state) (gs : list ghost) 
+      (es : list entry) (ls : list (list N)) (op : s2op),
+    s2op_ok op ->
+    Sess2Inv g st gs es ls ->
+    Confined g im0 own false (s2_im st) ->
+    chains_touchable g im0 own gs ->
+    exists (gs' : list ghost) (es' : list entry),
+      Sess2Inv g (fst (s2_step g acc st op)) gs' es' ls /\
+      Confined g im0 own false (s2_im (fst (s2_step g acc st op))) /\ chains_touchable g im0 own gs'.
+Proof. exact s2_step_confined. Qed.
+
+(* any run from any state of a session: the chains the handles have now, clusters free now, FAT copies, root region *)
+Theorem C11_session2_run_confined :
+    forall g : geom,
+    fixed_root_geom g ->
+    forall (acc : bool) (ops : list s2op) (st : s2state) (gs : list ghost) (es : list entry) (ls : list (list N)),
+    Forall s2op_ok ops ->
+    Sess2Inv g st gs es ls ->
+    exists (gs' : list ghost) (es' : list entry),
+      Sess2Inv g (fst (s2_run g acc st ops)) gs' es' ls /\
+      Confined g (s2_im st) (concat (map gh_l gs)) false (s2_im (fst (s2_run g acc st ops))).
+Proof. exact s2_run_confined. Qed.
+
+(* ... after EVERY call of the run *)
+Theorem C11_session2_every_call_confined :
+    forall g : geom,
+    fixed_root_geom g ->
+    forall (acc : bool) (ops : list s2op) (st : s2state) (gs : list ghost) (es : list entry) 
+      (ls : list (list N)) (n : nat),
+    Forall s2op_ok ops ->
+    Sess2Inv g st gs es ls ->
+    Confined g (s2_im st) (concat (map gh_l gs)) false (s2_im (fst (s2_run g acc st (firstn n ops)))).
+Proof. exact s2_run_confined_every_call. Qed.
+
+Theorem C11_session2_create_confined :
+    forall g : geom,
+    fixed_root_geom g ->
+    forall (upper : N -> list N) (oem : N -> N) (im0 : image) (own : list N) (st : s2state) 
+      (gs : list ghost) (es : list entry) (ls : list (list N)) (name : str) (now : datetime) 
+      (st' : s2state),
+    TimeProofs.datetime_valid now = true ->
+    Sess2Inv g st gs es ls ->
+    Confined g im0 own false (s2_im st) ->
+    chains_touchable g im0 own gs ->
+    s2_create upper oem st name now = Some st' ->
+    exists (gs' : list ghost) (es' : list entry),
+      Sess2Inv g st' gs' es' ls /\ Confined g im0 own false (s2_im st') /\ chains_touchable g im0 own gs'.
+Proof. exact s2_create_confined. Qed.
+
+Theorem C11_session2_creates_confined :
+    forall g : geom,
+    fixed_root_geom g ->
+    forall (upper : N -> list N) (oem : N -> N) (im0 : image) (own : list N) (reqs : list (str * datetime))
+      (st : s2state) (gs : list ghost) (es : list entry) (ls : list (list N)) (st' : s2state),
+    Forall (fun q : str * datetime => TimeProofs.datetime_valid (snd q) = true) reqs ->
+    Sess2Inv g st gs es ls ->
+    Confined g im0 own false (s2_im st) ->
+    chains_touchable g im0 own gs ->
+    s2_creates upper oem st reqs = Some st' ->
+    exists (gs' : list ghost) (es' : list entry),
+      Sess2Inv g st' gs' es' ls /\ Confined g im0 own false (s2_im st') /\ chains_touchable g im0 own gs'.
+Proof. exact s2_creates_confined. Qed.
+
+(* THE WHOLE SESSION from mount: create_file k times ; any steps - every data cluster written was FREE before the session *)
+Theorem C11_session2_confined :
+    forall g : geom,
+    fixed_root_geom g ->
+    forall (acc : bool) (upper : N -> list N) (oem : N -> N) (im : image) (fi : fsinfo)
+      (reqs : list (str * datetime)) (ops : list s2op) (st : s2state) (rs : list fresult),
+    parse_geom im = g ->
+    FatProofs.bytes_ok im ->
+    fi_inv fstore (val_ft (ft_of g)) (store_of g im) fi (g_clusters g) ->
+    v_root_issues (abs im) = [] ->
+    Forall (fun q : str * datetime => TimeProofs.datetime_valid (snd q) = true) reqs ->
+    Forall s2op_ok ops ->
+    vol_session2 upper oem acc im fi reqs ops = Some (st, rs) -> Confined g im [] false (s2_im st).
+Proof. exact vol_session2_confined. Qed.
+
+(* ONE MOUNTED SESSION of Model/VolStatus.v: mount ; create_file ; any calls ; flush / drop ; unmount - after every stage *)
+Theorem C11_vol_mounted_session_confined :
+    forall g : geom,
+    fixed_root_geom g ->
+    forall (upper : N -> list N) (oem : N -> N) (acc : bool) (im : image) (fi : fsinfo) 
+      (name : str) (now : datetime) (ops : list (fop * datetime)) (st1 : sstate) (s1 : fstat) 
+      (st2 : sstate) (s2 : fstat) (rs : list fresult),
+    parse_geom im = g ->
+    FatProofs.bytes_ok im ->
+    fi_inv fstore (val_ft (ft_of g)) (store_of g im) fi (g_clusters g) ->
+    v_root_issues (abs im) = [] ->
+    TimeProofs.datetime_valid now = true ->
+    Forall op_ok (map fst ops) ->
+    clocks_ok ops ->
+    sesss_create upper oem im fi (vol_mount_status g im) name now = Some (st1, s1) ->
+    sesss_run g acc st1 s1 ops = (st2, s2, rs) ->
+    let st3 := fst (sesss_flush g st2 s2) in
+    let im4 := fst (vol_unmount g (s_im st3) s2) in
+    Confined g im [] true (s_im st1) /\
+    Confined g im [] true (s_im st2) /\ Confined g im [] true (s_im st3) /\ Confined g im [] true im4.
+Proof. exact mounted_session_confined. Qed.
+
+(* ---------------------------------------------------------------- the 64-sector FAT12 image: hypotheses hold, and the classes the
+   extracted classifier really returns for the bytes that differ (Proofs/VolFrameExamples.v) *)
+Example C11_vol_example_session2_confined :
+    Confined (parse_geom ex_vol_im) ex_vol_im [] false ex2_final.
+Proof. exact exf_session2_confined. Qed.
+
+Example C11_vol_example_session2_regions :
+    changed_regions ex_vol_im ex2_final =
+    [RFat 0; RFat 1; RRoot; RCluster 2 OFree; RCluster 3 OFree; RCluster 4 OFree; RCluster 5 OFree] /\
+    length
+      (changed_offs ex_vol_im ex2_final
+         (Init.Nat.of_num_uint
+            (Number.UIntDecimal (Decimal.D3 (Decimal.D5 (Decimal.D0 (Decimal.D0 (Decimal.D0 Decimal.Nil)))))))) =
+    1133%nat /\
+    fat_copies_equal (parse_geom ex_vol_im) ex_vol_im = true /\
+    fat_copies_equal (parse_geom ex_vol_im) ex2_final = true /\
+    img_read ex2_final 512 3 = img_read ex_vol_im 512 3 /\
+    img_read ex2_final 1024 3 = img_read ex_vol_im 1024 3 /\
+    g_volume_bytes (parse_geom ex_vol_im) = 32768 /\ reserved_len (ft_of (parse_geom ex_vol_im)) = 3.
+Proof. exact exf_session2_regions. Qed.
+
+Example C11_vol_example_session_confined :
+    match vol_session ex_U ex_O false ex_vol_im ex_sfi ex_sname ex_vol_now ex_sops with
+    | Some (st, _) => Confined (parse_geom ex_vol_im) ex_vol_im [] false (s_im st)
+    | None => False
+    end.
+Proof. exact exf_session_confined. Qed.
+
+Example C11_vol_example_open_files_confined :
+    exists (gs : list ghost) (es : list entry) (ls : list (list N)),
+      Sess2Inv (parse_geom ex_vol_im) exf_st1 gs es ls /\
+      Forall s2op_ok exf_more /\
+      map gh_l gs = [[2; 4]; [3; 5]] /\
+      Confined (parse_geom ex_vol_im) (s2_im exf_st1) [2; 4; 3; 5] false
+        (s2_im (fst (s2_run (parse_geom ex_vol_im) false exf_st1 exf_more))).
+Proof. exact exf_open_files_confined. Qed.
+
+Example C11_vol_example_open_files_regions :
+    changed_regions (s2_im exf_st1) (s2_im (fst (s2_run (parse_geom ex_vol_im) false exf_st1 exf_more))) =
+    [RFat 0; RFat 1; RRoot; RCluster 4 OUnowned; RCluster 6 OFree].
+Proof. exact exf_open_files_regions. Qed.
+
+Example C11_vol_example_mounted_confined :
+    match exf_mounted ex_vol_im with
+    | Some (a, b, c, d) =>
+        Confined ex_g ex_vol_im [] true a /\
+        Confined ex_g ex_vol_im [] true b /\
+        Confined ex_g ex_vol_im [] true c /\ Confined ex_g ex_vol_im [] true d
+    | None => False
+    end.
+Proof. exact exf_mounted_confined. Qed.
+
+Example C11_vol_example_mounted_regions :
+    match exf_mounted ex_vol_im with
+    | Some (a, b, c, d) =>
+        changed_regions ex_vol_im a = [RStatus; RRoot] /\
+        changed_regions ex_vol_im b = [RStatus; RFat 0; RFat 1; RRoot; RCluster 2 OFree; RCluster 3 OFree] /\
+        changed_regions ex_vol_im c = [RStatus; RFat 0; RFat 1; RRoot; RCluster 2 OFree; RCluster 3 OFree] /\
+        changed_regions ex_vol_im d = [RFat 0; RFat 1; RRoot; RCluster 2 OFree; RCluster 3 OFree]
+    | None => False
+    end.
+Proof. exact exf_mounted_regions. Qed.
+
+Example C11_vol_example_existing_file_regions :
+    match exf_over with
+    | Some im1 =>
+        changed_regions ex_rm_im im1 =
+        [RStatus; RFat 0; RFat 1; RCluster 2 (OFile 2); RCluster 3 (OFile 2); RCluster 4 OFree]
+    | None => False
+    end /\
+    match vol_remove_file_root ex_U ex_O ex_rm_im ex_rm_fi ex_sname with
+    | Some (Ok _, im', _) => changed_regions ex_rm_im im' = [RFat 0; RFat 1; RRoot]
+    | _ => False
+    end.
+Proof. exact exf_existing_file_regions. Qed.
+
+Example C11_vol_example_remove_confined :
+    exists (im' : image) (fi' : fsinfo) (l : list N),
+      vol_remove_file_root ex_U ex_O ex_rm_im ex_rm_fi ex_sname = Some (Ok tt, im', fi') /\
+      chain_from (parse_geom ex_rm_im) ex_rm_im 2 (Abs.chain_fuel (parse_geom ex_rm_im)) = Some l /\
+      Confined (parse_geom ex_rm_im) ex_rm_im l false im'.
+Proof. exact exf_remove_confined. Qed.
+
+Print Assumptions C11_vol_confined_means.
+Print Assumptions C11_vol_confined_classified_by_owner_map.
+Print Assumptions C11_vol_owner_map_free_cluster.
+Print Assumptions C11_vol_confined_transitive.
+Print Assumptions C11_vol_create_confined.
+Print Assumptions C11_vol_remove_empty_confined.
+Print Assumptions C11_vol_rename_confined.
+Print Assumptions C11_vol_create_mounted_confined.
+Print Assumptions C11_vol_remove_empty_mounted_confined.
+Print Assumptions C11_vol_rename_mounted_confined.
+Print Assumptions C11_vol_file_step_confined.
+Print Assumptions C11_vol_file_step_mounted_confined.
+Print Assumptions C11_vol_remove_file_confined.
+Print Assumptions C11_vol_remove_file_failed_confined.
+Print Assumptions C11_vol_remove_file_mounted_confined.
+Print Assumptions C11_volchain_create_confined.
+Print Assumptions C11_volchain_remove_confined.
+Print Assumptions C11_volchain_rename_confined.
+Print Assumptions C11_vol_flush_confined.
+Print Assumptions C11_vol_flush_mounted_confined.
+Print Assumptions C11_vol_set_dirty_flag_confined.
+Print Assumptions C11_vol_unmount_confined.
+Print Assumptions C11_vol_create_handle_confined.
+Print Assumptions C11_vol_create_handle_mounted_confined.
+Print Assumptions C11_vol_file_run_confined.
+Print Assumptions C11_vol_file_run_mounted_confined.
+Print Assumptions C11_vol_session_run_confined.
+Print Assumptions C11_vol_session_run_mounted_confined.
+Print Assumptions C11_vol_session_confined.
+Print Assumptions C11_vol_multi_run_confined.
+Print Assumptions C11_session2_step_confined.
+Print Assumptions C11_session2_run_confined.
+Print Assumptions C11_session2_every_call_confined.
+Print Assumptions C11_session2_create_confined.
+Print Assumptions C11_session2_creates_confined.
+Print Assumptions C11_session2_confined.
+Print Assumptions C11_vol_mounted_session_confined.
+Print Assumptions C11_vol_example_session2_confined.
+Print Assumptions C11_vol_example_session2_regions.
+Print Assumptions C11_vol_example_session_confined.
+Print Assumptions C11_vol_example_open_files_confined.
+Print Assumptions C11_vol_example_open_files_regions.
+Print Assumptions C11_vol_example_mounted_confined.
+Print Assumptions C11_vol_example_mounted_regions.
+Print Assumptions C11_vol_example_existing_file_regions.
+Print Assumptions C11_vol_example_remove_confined.
